@@ -74,3 +74,17 @@ package interp
 //@   opt opaque-calls = *
 //@   opt opaque-havoc = none
 //@   requires [assume] n != nil && len(n.child) >= 2 && n.child[len(n.child)-1] != nil
+
+// gta, package-level definition (a `var`/`const` spec, or a definition among loose statements of a
+// piece): EVERY name on the left gets a global symbol — also when there is no value on the right
+// (`var total int`), the case in which the number of values says nothing about the number of names.
+//@ lit Interpreter.gta case:defineStmt () ()
+//@   props C11
+//@   opt safety = off
+//@   opt opaque-calls = *
+//@   opt opaque-havoc = none
+//@   requires [assume] n != nil && n.anc != nil && sc != nil && sc.sym != nil && n.nleft >= 0 && n.nright >= 0 && len(n.child) >= n.nleft + n.nright && forall(k, 0, len(n.child), n.child[k] != nil)
+//@   loop 1
+//@   invariant within-the-names: 0 <= i && i <= n.nleft
+//@   invariant earlier-names-have-a-global-symbol: forall(k, 0, i, has(sc.sym, n.child[k].ident) && sc.sym[n.child[k].ident] != nil && sc.sym[n.child[k].ident].global)
+//@   after every-name-has-a-global-symbol: forall(k, 0, n.nleft, has(sc.sym, n.child[k].ident) && sc.sym[n.child[k].ident] != nil && sc.sym[n.child[k].ident].global)
